@@ -34,7 +34,7 @@ ASSUMPTIONS = [
     "local backend: a recording stand-in for the pool drops / resets the connection or answers garbage at the k-th enqueue",
 ]
 
-BLOCK = 80  # cases per workflow: one systematic walk through its fault list
+WALK = 80  # positions per workflow: one systematic walk through its fault list (<= 76 entries)
 SUB_KINDS = ["exit1", "stderr_error", "garbage", "kill_parent_after", "kill_parent_before"]
 Q_KINDS = ["exit1", "stderr_error", "garbage"]
 
@@ -105,40 +105,47 @@ def fault_in_window(f, site):
 
 
 def fault_list(sched, n, pre):
-    fl = []
-    for k in range(1, n + 1):
-        for kind in SUB_KINDS:
-            fl.append({"where": "submit", "k": k, "kind": kind})
+    """the fault list of one configuration, categories interleaved so that any prefix of the walk is a mixed sample"""
+    cats = []
+    # k-th submit command x failure kind; positions strictly inside the sequence first
+    ks = [k for k in range(2, n)] + [1, n] if n > 2 else list(range(1, n + 1))
+    ks = list(dict.fromkeys(ks))
+    cats.append([{"where": "submit", "k": k, "kind": kind} for k in ks for kind in ("kill_parent_after", "exit1", "kill_parent_before", "stderr_error", "garbage")])
+    qs = []
     for q in QUERY_CMDS[sched]:
-        if q == "sacct" and not pre:
-            continue
-        if q == "bjobs" and not pre:
+        if q in ("sacct", "bjobs") and not pre:
             continue
         for kind in Q_KINDS:
-            fl.append({"where": "query", "cmd": q, "k": 1, "kind": kind})
-    for suffix in ("-backend-tracked.json", "spec-hashes.json"):
-        for after in (0, "half", "all"):
-            fl.append({"where": "write", "suffix": suffix, "after": after})
+            qs.append({"where": "query", "cmd": q, "k": 1, "kind": kind})
+    cats.append(qs)
+    cats.append([{"where": "write", "suffix": suffix, "after": after} for after in ("half", 0, "all") for suffix in ("-backend-tracked.json", "spec-hashes.json")])
     # kill right before the n-th mutating file-system operation on a state file (open/rename/remove)
-    for n_ in (1, 2, 3, 4):
-        fl.append({"where": "fsevent", "contains": ["backend-tracked"], "nth": n_})
-    for n_ in (1, 2):
-        fl.append({"where": "fsevent", "contains": ["spec-hashes"], "nth": n_})
+    cats.append([{"where": "fsevent", "contains": ["backend-tracked"], "nth": n_} for n_ in (2, 1, 3, 4)] + [{"where": "fsevent", "contains": ["spec-hashes"], "nth": n_} for n_ in (1, 2)])
     # kill right AFTER a state file has been renamed into place (unflushed buffers are lost)
-    for n_ in (1, 2, 3):
-        fl.append({"where": "afterreplace", "contains": ["backend-tracked"], "nth": n_})
-    fl.append({"where": "afterreplace", "contains": ["spec-hashes"], "nth": 1})
+    cats.append([{"where": "afterreplace", "contains": ["backend-tracked"], "nth": n_} for n_ in (1, 2, 3)] + [{"where": "afterreplace", "contains": ["spec-hashes"], "nth": 1}])
     # statement-granular crash points: hard kill / Ctrl-C (KeyboardInterrupt) at the k-th statement executed in
     # gwf's own source after the first submission command was issued (k drawn per case)
-    for _ in range(8):
-        fl.append({"where": "line", "action": "kill"})
-    for _ in range(8):
-        fl.append({"where": "line", "action": "interrupt"})
+    cats.append([{"where": "line", "action": a} for _ in range(8) for a in ("kill", "interrupt")])
+    fl = []
+    i = 0
+    while any(cats):
+        c = cats[i % len(cats)]
+        if c:
+            fl.append(c.pop(0))
+        i += 1
     return fl
 
 
+# configurations walked in the inner loop (so that every prefix of the case sequence covers all of them):
+# scheduler x history before the interrupted run; index 12 = local backend
+CONFS = [(s, h) for h in ("none", "pending", "failed") for s in ("slurm", "sge", "lsf", "slurm-noacct")] + [("local", None)]
+
+
 def gen_case(rng, idx, tier):
-    if idx % 14 == 9:
+    conf = idx % len(CONFS)
+    j = idx // len(CONFS)  # position in this configuration's walk
+    sched, hist = CONFS[conf]
+    if sched == "local":
         n = rng.randint(3, 6)
         dag = gen.gen_dag(rng, n_targets=n, p_noout=0.0, shapes=rng.choice(["chain", "diamond", "fan", "random"]))
         for t in dag["targets"]:
@@ -147,16 +154,16 @@ def gen_case(rng, idx, tier):
         if rng.random() < 0.4:
             fault = {"where": "line", "action": rng.choice(["kill", "interrupt"]), "nth": rng.randint(1, 150 * n + 80), "k": 0}
         return {"sched": "local", "dag": dag, "pre": rng.random() < 0.5, "hashing": rng.random() < 0.5, "fault": fault}
-    wf_rng = random.Random(idx // BLOCK * 7919 + 13)
-    sched = ["slurm", "slurm", "sge", "lsf", "slurm-noacct"][(idx // BLOCK) % 5]
+    # one workflow per full walk through the configuration's fault list (WALK positions), a new one afterwards
+    wf_rng = random.Random((j // WALK) * 7919 + conf * 104729 + 13)
     n = wf_rng.randint(3, 7)
     dag = gen.gen_dag(wf_rng, n_targets=n, p_noout=0.0, shapes=wf_rng.choice(["chain", "diamond", "fan", "random"]))
     for t in dag["targets"]:
         t["spec"] = "echo %s\n" % t["name"]
-    pre = wf_rng.random() < 0.55
     # the earlier invocation was either a partial run whose job is still pending, or a COMPLETE run all of whose jobs
     # have failed / were cancelled since: the interrupted run then re-submits targets that already have a tracked id
-    pre_failed = pre and wf_rng.random() < 0.45
+    pre = hist != "none"
+    pre_failed = hist == "failed"
     hashing = wf_rng.random() < 0.5
     noacct = sched == "slurm-noacct"
     sched = "slurm" if noacct else sched
@@ -164,7 +171,7 @@ def gen_case(rng, idx, tier):
     if noacct:
         fl = [f for f in fl if f.get("cmd") != "sacct"]
     # systematic walk through the fault list, random beyond it
-    f = dict(fl[idx % BLOCK] if (idx % BLOCK) < len(fl) else rng.choice(fl))
+    f = dict(fl[j % WALK] if (j % WALK) < len(fl) else rng.choice(fl))
     if f["where"] == "line":
         f["nth"] = rng.randint(1, 185 * (n - (1 if pre and not pre_failed else 0)) + 40)
     return {"sched": sched, "dag": dag, "pre": pre, "pre_failed": pre_failed, "hashing": hashing, "fault": f, "noacct": noacct}
@@ -185,7 +192,7 @@ def run_local(case):
 
     res = Result()
     f = case["fault"]
-    with gen.Project() as proj, RecServer(first_id=0) as srv:
+    with gen.Project() as proj, RecServer() as srv:
         ts = case["dag"]["targets"]
         variant = [{"name": t["name"], "ins_expr": repr(t["ins"]), "outs_expr": repr(t["outs"]), "spec": t["spec"], "route": "target"} for t in ts]
         proj.write_workflow(gen.render_workflow(variant))
